@@ -44,6 +44,7 @@ struct Run {
     std::vector<Line> events;
     std::vector<int> order;         // run() entry order
     bool stopped = false;           // between the return of stop() and the next start()
+    bool everStopped = false;
     int64_t maxw = 4;
     int labelNo = 0;
     size_t maxWorkersSeen = 0;
@@ -91,7 +92,7 @@ static void ownerMain() {
         if (c == -2) return;
         if (c == 0) { int k = (int) cur->tasks.size(); cur->tasks.push_back({}); cur->stopped = false; cur->pool->start(new Task(k)); }
         else if (c == 1) cur->pool->clear();
-        else if (c == 2) { cur->pool->stop(); cur->stopped = true; cur->events.push_back({5}); }
+        else if (c == 2) { cur->pool->stop(); cur->stopped = true; cur->everStopped = true; cur->events.push_back({5}); }
     }
 }
 
@@ -110,13 +111,14 @@ static void runToBoundary(vs::VThread *t) {
             if (!vs::enabled(t)) { cur->complain("blocked on m_poolMutex"); return; }
             continue;
         }
+        if (t->reason == vs::R_AFTER_SPAWN) continue; // inside the std::thread constructor: not a boundary of the model
         return;
     }
 }
 
 int main() {
     return main_loop([](const Case &c) {
-        if (c.lines.size() < 2 || c.lines[0].size() != 2) { emit({PRE}); return; }
+        if (c.lines.size() < 2 || c.lines[0].size() < 2 || c.lines[0].size() > 3) { emit({PRE}); return; }
         emit({});
         emit({});
         vs::Sched::get().reset();
@@ -212,7 +214,51 @@ int main() {
             if (r->maxw >= 0 && (int64_t) r->pool->m_pool.size() > r->maxw)
                 r->complain("C08: " + std::to_string(r->pool->m_pool.size()) + " worker threads although the maximum is " + std::to_string(r->maxw));
         };
-        for (size_t li = 2; li < c.lines.size(); ++li) {
+        if (c.lines[0][0] == 2) {
+            // free exploration (failing-input search only): header [2; max; seed]; every scheduling point of every
+            // thread is a choice, drawn from the seed; only the monitors judge
+            uint64_t rs = (uint64_t) (c.lines[0].size() > 2 ? c.lines[0][2] : 1) * 0x9E3779B97F4A7C15ULL + 12345;
+            auto rnd = [&]() { rs ^= rs << 13; rs ^= rs >> 7; rs ^= rs << 17; return rs; };
+            for (long guard = 0; guard < 20000; ++guard) {
+                std::vector<vs::VThread *> en;
+                auto *o = r->owner;
+                if (o->reason == vs::R_POINT ? r->pc < r->program.size() : (o->reason != vs::R_FINISHED && vs::enabled(o))) en.push_back(o);
+                for (auto *w : r->workers()) if (w->reason != vs::R_FINISHED && vs::enabled(w)) en.push_back(w);
+                if (en.empty()) break;
+                auto *t = en[rnd() % en.size()];
+                if (t == o && o->reason == vs::R_POINT && rnd() % 3 == 0) {
+                    // quiescence probe before the next owner call: let the workers run until none can; every
+                    // task submitted so far must then have been taken (C07: executed unless stopped or cleared first)
+                    for (long g2 = 0; g2 < 5000; ++g2) {
+                        vs::VThread *w2 = nullptr;
+                        for (auto *w : r->workers()) if (w->reason != vs::R_FINISHED && vs::enabled(w)) { w2 = w; break; }
+                        if (!w2) break;
+                        size_t e0 = r->events.size();
+                        vs::step(w2);
+                        for (size_t i = e0; i < r->events.size(); ++i) if (r->events[i][0] == 1) running[w2] = r->events[i][1];
+                    }
+                    if (!r->pool->m_queue.empty() && !r->stopped && r->everStopped)
+                        r->complain("C08: a start() after stop() does not work again: the submitted task is never taken although the pool was neither stopped nor cleared since");
+                    if (!r->pool->m_queue.empty() && !r->stopped)
+                        r->complain("C07: " + std::to_string(r->pool->m_queue.size()) + " submitted task(s) are still queued although no worker can make progress and the pool was neither stopped nor cleared (" +
+                                    std::to_string(r->pool->getThreadCount()) + " thread(s), " + std::to_string(r->pool->getActiveThreadCount()) + " active)");
+                }
+                if (t == o && o->reason == vs::R_POINT) {
+                    pendingCmd = (int) r->program[r->pc++];
+                    if (pendingCmd < 0 || pendingCmd > 2) continue;
+                    r->ownerCmd = pendingCmd;
+                }
+                vs::Sched::get().notifyChoice = -1;
+                auto *target = (t->reason == vs::R_JOIN) ? (vs::VThread *) t->obj : nullptr;
+                size_t ev0 = r->events.size();
+                vs::step(t);
+                if (target) r->gone.push_back(target);
+                for (size_t i = ev0; i < r->events.size(); ++i) if (r->events[i][0] == 1) running[t] = r->events[i][1];
+                if (r->maxw >= 0 && (int64_t) r->pool->m_pool.size() > r->maxw) r->complain("C08: more worker threads than the maximum");
+            }
+            // a task submitted after the last stop()/clear() and never run or destroyed is reported below
+        }
+        for (size_t li = 2; li < c.lines.size() && c.lines[0][0] != 2; ++li) {
             const Line &l = c.lines[li];
             r->labelNo = (int) li - 1;
             size_t ev0 = r->events.size();
